@@ -257,6 +257,19 @@ func extractRoot(f *ast.File) rootInfo {
 	if loadAt < 0 {
 		die(fd.Pos(), "start: root load not found")
 	}
+	if !ri.shared {
+		// no `Budget:` field in the Progress literal: fine (unbudgeted walk) unless the field is set elsewhere
+		ast.Inspect(goBody, func(n ast.Node) bool {
+			if as, ok := n.(*ast.AssignStmt); ok {
+				for _, l := range as.Lhs {
+					if se, ok := l.(*ast.SelectorExpr); ok && se.Sel.Name == "Budget" {
+						die(as.Pos(), "start: the walk's budget is assigned outside the Progress literal (%s): not understood", src(as))
+					}
+				}
+			}
+			return true
+		})
+	}
 	if checkAt < 0 {
 		// no root check at all: the empty step list
 		ri.steps = nil
